@@ -35,6 +35,10 @@ impl TreeCfg {
             _ => {
                 if thorough {
                     1 + rng.usize(10_000)
+                } else if rng.chance(1, 60) {
+                    // rarely also in quick: enough leaves for > 8192 distinct nodes and for
+                    // back-reference paths longer than 63 bytes (deep spines)
+                    600 + rng.usize(12_000)
                 } else {
                     1 + rng.usize(300)
                 }
@@ -44,7 +48,7 @@ impl TreeCfg {
             max_leaves,
             share_pct: *rng.pick(&[0, 10, 30, 60, 90]),
             medium_atoms: rng.chance(1, 4),
-            huge_atoms: thorough && rng.chance(1, 40),
+            huge_atoms: (thorough && rng.chance(1, 40)) || rng.chance(1, 1500),
             pool_pct: *rng.pick(&[0, 20, 50, 80]),
         }
     }
